@@ -108,16 +108,24 @@ func region(out []byte, k int) string {
 
 func writeFaults(v valueSpec, idx int) {
 	al := alphabet()
-	// reference output
-	in := sp.Build(v.cfg, al, v.ops)
+	base := sp.Build(v.cfg, al, v.ops)
+	out := writeFaultsOn(base, func(what string) map[string]interface{} { return sp.HistoryDetail(v.cfg, "full", v.ops, al, what) })
+	if out != nil {
+		readFaults(out, fmt.Sprintf("value%d", idx))
+	}
+}
+
+// writeFaultsOn injects destination faults at every offset of the output of
+// base (which is never written itself: every write uses a value copy) and
+// returns the fault-free output.
+func writeFaultsOn(base *sp.Inst, detail func(what string) map[string]interface{}) []byte {
 	var ref bytes.Buffer
-	if _, err := in.S.WriteTo(&ref); err != nil {
+	if _, err := base.Clone().S.WriteTo(&ref); err != nil {
 		ctx.Guard(false, "reference write failed: %v", err)
-		return
+		return nil
 	}
 	out := ref.Bytes()
 	ctx.Add("values", 1)
-	base := sp.Build(v.cfg, al, v.ops)
 	for _, mode := range []string{"short", "call"} {
 		for k := 0; k <= len(out)+1; k++ {
 			in := base.Clone() // smf.SMF is a value type; WriteTo closes open tracks in place
@@ -142,7 +150,7 @@ func writeFaults(v valueSpec, idx int) {
 				ctx.NontrivialN(1)
 			}
 			if sig != "" && ctx.SigCount(sig) < 10 {
-				d := sp.HistoryDetail(v.cfg, "full", v.ops, al, what)
+				d := detail(what)
 				d["kind"] = "write-fault"
 				d["fault_at"] = k
 				d["mode"] = mode
@@ -156,7 +164,7 @@ func writeFaults(v valueSpec, idx int) {
 				if err2 != nil || n2 != int64(len(out)) || !bytes.Equal(again.Bytes(), out) {
 					s2 := "write-after-failed-write:" + mode
 					if ctx.SigCount(s2) < 10 {
-						d := sp.HistoryDetail(v.cfg, "full", v.ops, al, fmt.Sprintf("after a write that failed at offset %d, a write to a healthy destination emits different bytes (%d instead of %d, err %v): %s", k, again.Len(), len(out), err2, engine.Hex(clip(again.Bytes()))))
+						d := detail(fmt.Sprintf("after a write that failed at offset %d, a write to a healthy destination emits different bytes (%d instead of %d, err %v): %s", k, again.Len(), len(out), err2, engine.Hex(clip(again.Bytes()))))
 						d["kind"] = "write-fault"
 						d["fault_at"] = k
 						d["mode"] = mode
@@ -186,7 +194,7 @@ func writeFaults(v valueSpec, idx int) {
 				sig, what = "write-nil:transient:"+mode, fmt.Sprintf("Write call %d of the destination failed, later calls succeeded, WriteTo returned nil", j)
 			}
 			if sig != "" && ctx.SigCount(sig) < 10 {
-				d := sp.HistoryDetail(v.cfg, "full", v.ops, al, what)
+				d := detail(what)
 				d["kind"] = "write-fault"
 				d["fault_at"] = j
 				d["mode"] = mode
@@ -194,7 +202,34 @@ func writeFaults(v valueSpec, idx int) {
 			}
 		}
 	}
-	readFaults(out, fmt.Sprintf("value%d", idx))
+	return out
+}
+
+// statePlans: the value family is also taken from the API-history state space
+// of C01/C03 (every distinct value reachable with the plan's operations).
+func statePlans() []sp.Plan {
+	cfgs := []sp.Cfg{{Ctor: 0, TF: smf.MetricTicks(96)}, {Ctor: 0, NoRS: true, TF: smf.MetricTicks(96)}}
+	pl := []sp.Plan{
+		{Name: "tiny-alphabet", Cfgs: cfgs, AlName: "tiny", Deltas: []uint32{0, 128}, CloseDeltas: []uint32{0},
+			Add2: true, MaxEvents: ctx.Pick(3, 4), MaxTracks: ctx.Pick(2, 3)},
+	}
+	if ctx.Thorough() {
+		pl = append(pl, sp.Plan{Name: "small-alphabet", Cfgs: cfgs, AlName: "small", Deltas: []uint32{0, 128}, CloseDeltas: []uint32{0},
+			MaxEvents: 3, MaxTracks: 2},
+			sp.Plan{Name: "full-alphabet", Cfgs: cfgs[:1], AlName: "full", Deltas: []uint32{0}, CloseDeltas: []uint32{0},
+				MaxEvents: 2, MaxTracks: 2})
+	}
+	return pl
+}
+
+func stateCheck(in *sp.Inst, hist []sp.Op, cfg sp.Cfg, p *sp.Plan) {
+	al := sp.Alphabet(p.AlName)
+	h := append([]sp.Op(nil), hist...)
+	out := writeFaultsOn(in, func(what string) map[string]interface{} { return sp.HistoryDetail(cfg, p.AlName, h, al, what) })
+	ctx.Add("state_space_values", 1)
+	if out != nil && len(hist)%3 == 0 {
+		readFaults(out, "state-space")
+	}
 }
 
 func readFaults(data []byte, label string) {
@@ -278,12 +313,26 @@ func main() {
 	gf := genFiles()
 	ctx.Jobs("write-and-read-faults", len(vals), func(j int) { writeFaults(vals[j], j) })
 	ctx.Jobs("read-faults-generated", len(gf), func(j int) { readFaults(gf[j], fmt.Sprintf("gen%d", j)) })
+	type sjob struct {
+		p   sp.Plan
+		cfg sp.Cfg
+		op  int
+	}
+	var sj []sjob
+	for _, p := range statePlans() {
+		for _, c := range p.Cfgs {
+			for op := range p.Ops() {
+				sj = append(sj, sjob{p, c, op})
+			}
+		}
+	}
+	ctx.Jobs("state-space", len(sj), func(j int) { sp.RunPlanCfgShard(ctx, sj[j].p, sj[j].cfg, sj[j].op, stateCheck) })
 	ctx.Set("api_values", len(vals))
 	ctx.Set("generated_files", len(gf))
 	ctx.Sample(map[string]interface{}{"value": sp.DescribeOps(vals[1].ops, alphabet()), "fault": "destination accepts exactly k bytes then fails, for every k in 0..size+1, modes short-write+error and error-per-call"})
 	ctx.Sample(map[string]interface{}{"file": engine.Hex(gf[0]), "fault": "source delivers k bytes then a sticky non-EOF error, for every k"})
 	ctx.Guard(ctx.NontrivialCount() > 1000, "too few faults fired: %d", ctx.NontrivialCount())
-	ctx.Finish("for every value of the family: destination fault at every byte offset (two modes) and, on the bytes written, source fault at every offset; plus source faults on generated byte-level files; non-trivial = cases in which the injected error was actually returned to the library")
+	ctx.Finish("for every value of the family: destination fault at every byte offset (two modes) and, on the bytes written, source fault at every offset; the family is the hand-built list plus every distinct value of an API-history state space (BFS, states/transitions reported); plus source faults on generated byte-level files; non-trivial = cases in which the injected error was actually returned to the library")
 }
 
 func replay() {
@@ -292,7 +341,12 @@ func replay() {
 		readFaults(engine.UnHex(m["file"].(string)), "replay")
 		ctx.Finish("replay")
 	}
-	cfg, _, ops := sp.ParseHistory(m)
+	cfg, alName, ops := sp.ParseHistory(m)
+	if alName != "full" {
+		al := sp.Alphabet(alName)
+		writeFaultsOn(sp.Build(cfg, al, ops), func(what string) map[string]interface{} { return sp.HistoryDetail(cfg, alName, ops, al, what) })
+		ctx.Finish("replay")
+	}
 	writeFaults(valueSpec{cfg, ops}, 0)
 	ctx.Finish("replay")
 }
